@@ -627,6 +627,17 @@ fn dump<'tcx>(tcx: TyCtxt<'tcx>, out_path: &str) {
     let mut bodies = Vec::new();
     let mut unsafe_blocks = Vec::new();
     let mut n_skipped = 0usize;
+    // Evaluating a constant operand while one body is dumped (`const BYTE: usize = ..` declared inside a function) makes
+    // rustc steal that constant's `mir_built`; so every body is copied first, before anything is evaluated.
+    let mut built = HashMap::new();
+    for def in tcx.hir_body_owners() {
+        let kind = tcx.def_kind(def);
+        if matches!(kind, DefKind::Fn | DefKind::AssocFn | DefKind::Closure | DefKind::AssocConst { .. } | DefKind::Const { .. }) {
+            let steal = tcx.mir_built(def);
+            let copy: Body<'tcx> = steal.borrow().clone();
+            built.insert(def, copy);
+        }
+    }
     for def in tcx.hir_body_owners() {
         let kind = tcx.def_kind(def);
         if !matches!(kind, DefKind::Fn | DefKind::AssocFn | DefKind::Closure | DefKind::AssocConst { .. } | DefKind::Const { .. }) {
@@ -640,9 +651,8 @@ fn dump<'tcx>(tcx: TyCtxt<'tcx>, out_path: &str) {
             uf.visit_expr(body.value);
             unsafe_blocks.extend(uf.out);
         }
-        let steal = tcx.mir_built(def);
-        let body = steal.borrow();
-        bodies.push(d.body(def, &body));
+        let body = &built[&def];
+        bodies.push(d.body(def, body));
     }
 
     // ADTs, impls, traits
